@@ -30,6 +30,14 @@ SRC = os.path.join(REPO, "src")
 PKG = os.path.join(SRC, "qutip_qip")
 NCPU = int(os.environ.get("VERIF_JOBS", "16"))
 
+# scratch worktrees lack the build-generated version.py (untracked in /repo): copy it so the package imports
+if REPO != "/repo" and not os.path.exists(os.path.join(PKG, "version.py")) and os.path.isdir(PKG):
+    try:
+        import shutil
+        shutil.copy("/repo/src/qutip_qip/version.py", os.path.join(PKG, "version.py"))
+    except OSError:
+        pass
+
 # the implementation under check is always imported from REPO's working tree
 if SRC not in sys.path:
     sys.path.insert(0, SRC)
